@@ -27,12 +27,14 @@ Record hit := mk_hit { h_route : N; h_t0 : Z; h_t1 : Z; h_ttl : Z }.
 Record pre := mk_pre { p_name : N; p_ent : oent; p_msg : msg }.
 Record nscript := mk_nscript { ns_name : N; ns_msg : msg; ns_cut : option Z }.
 Record nadm := mk_nadm { na_name : N; na_ent : oent }.
+(* a live subtree cut covering a world name: expiry and the authority records it serves *)
+Record ncut := mk_ncut { nc_name : N; nc_expires : Z; nc_ns : list mrr }.
 
 (* store automaton operations as driven on the real store *)
 Inductive cop :=
 | XSet (k : N) (id_after : N)             (* SetFromResponse*: id now at k (0 = none) *)
 | XRemove (k : N) (id_after : N)
-| XCas (k : N) (old : N) (ok : bool) (id_after : N).
+| XCas (k : N) (old : N) (servfail : bool) (ok : bool) (id_after : N).  (* servfail: the refresh was a SERVFAIL, which never displaces a positive entry *)
 
 Inductive case :=
 (* dnsutil.getRRSIGTTL(sig, now), exact *)
@@ -71,7 +73,8 @@ Inductive case :=
 | CPrefetch (claimed_id : N) (current_id : N) (cls : rclass) (rrs : list rr) (cut : option Z)
             (w0 w1 t0 t1 : Z) (replaced : bool) (after_id : N) (after : oent)
 (* one request tree (alias chase) over a store snapshot and scripted downstream *)
-| CTree (route : N) (pres : list pre) (sc : list nscript) (q : N) (t0 t1 : Z) (wit : list Z)
+(* route 4: wire-born request that was materialised (its request meta is detached, not observable) *)
+| CTree (route : N) (pres : list pre) (pcuts : list ncut) (sc : list nscript) (q : N) (t0 t1 : Z) (wit : list Z)
         (reply : msg) (meta_obs : option Z) (adm : list nadm) (missed : list N).
 
 (* ------------------------------------------------------------------ *)
@@ -121,6 +124,12 @@ Definition fold_bounds (m : option Z) (l : list (option Z)) : option Z := fold_l
 
 (* ---------------- specification oracle (independent) ---------------- *)
 
+(* the statement's own constants (not the code's): floor 5 s, ceiling 24 h,
+   proofs capped at 3 h *)
+Definition spec_floor : Z := 5 * second.
+Definition spec_ceiling : Z := 86400 * second.
+Definition spec_proof_cap : Z := 10800 * second.
+
 (* the smallest of the lifetime terms the statement lists, in ns, for the
    most generous clock reading [wall] of the bracket *)
 Definition spec_terms (cls : rclass) (rrs : list rr) (wall : Z) : list Z :=
@@ -132,15 +141,15 @@ Definition spec_terms (cls : rclass) (rrs : list rr) (wall : Z) : list Z :=
                 | RNXDomain | RNoRecords => if (rr_sec r =? 1)%N then [rr_ttl r * second; m * second] else [rr_ttl r * second]
                 | _ => [rr_ttl r * second]
                 end
-    | KSig e => [rr_ttl r * second; Z.max min_cache_ttl (e * second - wall)]
+    | KSig e => [rr_ttl r * second; Z.max spec_floor (e * second - wall)]
     end) rrs.
 Definition list_min (l : list Z) (d : Z) : Z := fold_right Z.min d l.
 (* "floored at 5 s, capped at 24 h", then the ECS cap *)
 Definition spec_ttl (cls : rclass) (rrs : list rr) (scoped : bool) (ecs_max wall : Z) : Z :=
   let base := match cls with
               | RSuccess | RNXDomain | RNoRecords =>
-                  Z.min max_cache_ttl (Z.max min_cache_ttl (list_min (spec_terms cls rrs wall) max_cache_ttl))
-              | _ => min_cache_ttl
+                  Z.min spec_ceiling (Z.max spec_floor (list_min (spec_terms cls rrs wall) spec_ceiling))
+              | _ => spec_floor
               end in
   if scoped && (0 <? ecs_max) then Z.min base ecs_max else base.
 (* the lease overrides the floor *)
@@ -183,7 +192,7 @@ Definition pres_store (l : list pre) : cstore * N :=
   fold_left (fun acc p =>
                match p_ent p with
                | NoEnt => acc
-               | Ent s t c scp => (cs_set (fst acc) (p_name p) (mk_centry (mk_entry (snd acc) s t c scp) (p_msg p)), (snd acc + 1)%N)
+               | Ent s t c scp => (cs_set (fst acc) (p_name p) (mk_centry (mk_entry (snd acc) s t c scp) (p_msg p) []), (snd acc + 1)%N)
                end) l ([], 1%N).
 Definition scripts_of (l : list nscript) : scripts := map (fun s => (ns_name s, mk_script (ns_msg s) (ns_cut s))) l.
 
@@ -192,8 +201,8 @@ Definition oent_eqb (a : oent) (e : entry) : bool :=
   | NoEnt => false
   | Ent s t c sc => (s =? e_stored e) && (t =? e_ttl e) && oz_eqb c (e_cut e) && Bool.eqb sc (e_scoped e)
   end.
-Definition adm_eqb (a : nadm) (b : N * entry) : bool := (na_name a =? fst b)%N && oent_eqb (na_ent a) (snd b).
-Fixpoint adm_list_eqb (a : list nadm) (b : list (N * entry)) : bool :=
+Definition adm_eqb (a : nadm) (b : N * entry * list Z) : bool := (na_name a =? fst (fst b))%N && oent_eqb (na_ent a) (snd (fst b)).
+Fixpoint adm_list_eqb (a : list nadm) (b : list (N * entry * list Z)) : bool :=
   match a, b with
   | [], [] => true
   | x :: xs, y :: ys => adm_eqb x y && adm_list_eqb xs ys
@@ -217,10 +226,36 @@ Definition find_pre (l : list pre) (n : N) : option pre := find (fun p => (p_nam
 Definition mem_n (n : N) (l : list N) : bool := existsb (N.eqb n) l.
 Definition owners (m : msg) : list N := map m_owner (g_an m) ++ map m_owner (g_ns m).
 
-Definition tree_spec (pres : list pre) (sc : list nscript) (t0 : Z) (reply : msg) (adm : list nadm) (missed : list N) : bool :=
+(* which subtree cut, if any, the chase from [n] ended at: follow the aliases
+   in the reply through names resolved downstream or served from live
+   non-terminal entries; a name with no entry and a cut is answered by the cut *)
+Fixpoint cut_consulted (fuel : nat) (pres : list pre) (pcuts : list ncut) (missed : list N) (an : list mrr) (n : N) : option ncut :=
+  match fuel with
+  | O => None
+  | S f =>
+      let next := match find (fun r => (m_owner r =? n)%N && is_cname r) an with
+                  | Some r => match m_type r with TCname t => cut_consulted f pres pcuts missed an t | _ => None end
+                  | None => None
+                  end in
+      if mem_n n missed then next
+      else match find_pre pres n with
+           | Some p => if (g_rcode (p_msg p) =? 3)%N then None else next
+           | None => find (fun c => (nc_name c =? n)%N) pcuts
+           end
+  end.
+
+(* owners whose records a downstream response supplied in this tree *)
+Definition fresh_owners (sc : list nscript) (missed : list N) : list N :=
+  flat_map (fun n => match find (fun x => (ns_name x =? n)%N) sc with
+                     | Some x => owners (ns_msg x)
+                     | None => []
+                     end) missed.
+
+Definition tree_spec (pres : list pre) (pcuts : list ncut) (sc : list nscript) (t0 : Z) (reply : msg) (adm : list nadm) (missed : list N) : bool :=
+  let fresh := fresh_owners sc missed in
   (* every record that came out of the cache is inside its piece's lifetime *)
   forallb (fun r =>
-             if mem_n (m_owner r) missed then true
+             if mem_n (m_owner r) fresh then true
              else match find_pre pres (m_owner r) with
                   | Some p => match pre_end p with
                               | Some e => (t0 <? e) && (m_ttl r * second <=? e - t0)
@@ -228,6 +263,16 @@ Definition tree_spec (pres : list pre) (sc : list nscript) (t0 : Z) (reply : msg
                               end
                   | None => true
                   end) (g_an reply)
+  (* a denial synthesised from a subtree cut is inside the cut's lifetime *)
+  && match cut_consulted 12 pres pcuts missed (g_an reply) (g_q reply) with
+     | Some c =>
+         if (g_rcode reply =? 3)%N then
+           forallb (fun r => if mem_n (m_owner r) (map m_owner (nc_ns c))
+                             then (t0 <? nc_expires c) && (m_ttl r * second <=? nc_expires c - t0)
+                             else true) (g_ns reply)
+         else true
+     | None => true
+     end
   (* every entry admitted from the tree ends no later than each cached piece
      and each lease it was learned through *)
   && forallb (fun a =>
@@ -237,16 +282,30 @@ Definition tree_spec (pres : list pre) (sc : list nscript) (t0 : Z) (reply : msg
            let e_end := spec_end s t c in
            forallb (fun n =>
                       if mem_n n missed then
+                        (* a downstream answer binds the entry to its lease when it
+                           contributed: the entry's own answer, records in the reply,
+                           or a terminal negative answer (a failed sub-query that
+                           contributed nothing does not) *)
                         match find (fun x => (ns_name x =? n)%N) sc with
-                        | Some x => match ns_cut x with Some lease => e_end <=? lease | None => true end
+                        | Some x =>
+                            let contributed := (n =? na_name a)%N || mem_n n (owners reply)
+                                               || (match g_an (ns_msg x), g_ns (ns_msg x) with [], _ :: _ => true | _, _ => false end) in
+                            if contributed then match ns_cut x with Some lease => e_end <=? lease | None => true end
+                            else true
                         | None => true
                         end
-                      else if negb (mem_n n (owners reply)) then true
+                      else if mem_n n fresh then true
                       else match find_pre pres n with
-                           | Some p => match pre_end p with Some pe => e_end <=? pe | None => true end
+                           | Some p => if negb (mem_n n (owners reply)) then true
+                                       else match pre_end p with Some pe => e_end <=? pe | None => true end
                            | None => true
                            end)
                    (reach 12 (g_an reply) (na_name a))
+           (* ... and no later than the subtree cut whose synthesised denial it adopted *)
+           && match cut_consulted 12 pres pcuts missed (g_an reply) (na_name a) with
+              | Some c => if (g_rcode reply =? 3)%N then e_end <=? nc_expires c else true
+              | None => true
+              end
        end) adm.
 
 (* ---------------- store automaton on observed ids ---------------- *)
@@ -260,9 +319,9 @@ Fixpoint cas_replay (m : list (N * N)) (fresh : N) (ops : list cop) : bool :=
       (* a set always installs an entry nobody has seen before *)
       (fresh <=? id)%N && cas_replay (im_set m k id) (id + 1)%N r
   | XRemove k id :: r => (id =? 0)%N && cas_replay (im_remove m k) fresh r
-  | XCas k old ok id :: r =>
+  | XCas k old sf ok id :: r =>
       let cur := match im_get m k with Some c => c | None => 0%N end in
-      let expect_ok := (negb (cur =? 0)%N) && (cur =? old)%N in
+      let expect_ok := (negb (cur =? 0)%N) && (cur =? old)%N && negb sf in
       Bool.eqb ok expect_ok
       && (if expect_ok then (fresh <=? id)%N && cas_replay (im_set m k id) (id + 1)%N r
           else (id =? cur)%N && cas_replay m fresh r)
@@ -274,9 +333,9 @@ Fixpoint cas_spec (latest : list (N * N)) (ops : list cop) : bool :=
   | [] => true
   | XSet k id :: r => cas_spec (im_set latest k id) r
   | XRemove k id :: r => cas_spec (im_remove latest k) r
-  | XCas k old ok id :: r =>
+  | XCas k old sf ok id :: r =>
       match im_get latest k with
-      | Some cur => if (cur =? old)%N then cas_spec (im_set latest k id) r
+      | Some cur => if (cur =? old)%N then (if ok then cas_spec (im_set latest k id) r else (id =? cur)%N && cas_spec latest r)
                     else negb ok && (id =? cur)%N && cas_spec latest r
       | None => negb ok && (id =? 0)%N && cas_spec latest r
       end
@@ -327,33 +386,33 @@ Definition check_case (c : case) : bool :=
       end
   | CCas ops => cas_replay [] 1%N ops
   | CPrefetch claimed current cls rrs cut w0 w1 t0 t1 replaced after_id after =>
-      let ok := (negb (current =? 0)%N) && (current =? claimed)%N in
+      let ok := (negb (current =? 0)%N) && (current =? claimed)%N && admitted_class cls in
       Bool.eqb replaced ok
       && (if ok then
             negb (after_id =? claimed)%N
             && admit_consistent 4 cls rrs false 0 cut w0 w1 t0 t1 after
           else (after_id =? current)%N)
-  | CTree route pres sc q t0 t1 wit reply mo adm missed =>
+  | CTree route pres pcuts sc q t0 t1 wit reply mo adm missed =>
       let '(st, next) := pres_store pres in
-      let w := mk_world st next wit [] in
-      let '(w', m', r') := serve_dns (scripts_of sc) t1 14%nat w None 0 q in
+      let w := mk_world st (map (fun c => (nc_name c, mk_ccut (nc_expires c) (nc_ns c))) pcuts) next wit [] [] in
+      let '(w', m', r', _) := serve_dns (scripts_of sc) t1 14%nat w None 0 q in
       all_within t0 t1 wit
-      && msg_eqb r' reply && oz_eqb m' mo && adm_list_eqb adm (w_adm w')
+      && msg_eqb r' reply && ((route =? 4)%N || oz_eqb m' mo) && adm_list_eqb adm (w_adm w')
   end.
 
 Definition spec_case (c : case) : bool :=
   match c with
   | CSigTTL ttl e now obs =>
       (* never above the record TTL; never above the time to expiry unless that is below the floor *)
-      (obs <=? Z.max min_cache_ttl (ttl * second))
-      && (obs <=? Z.max min_cache_ttl (e * second - now))
+      (obs <=? Z.max spec_floor (ttl * second))
+      && (obs <=? Z.max spec_floor (e * second - now))
   | CCalc cls rrs w0 w1 obs =>
       (match cls with
        | RSuccess | RNXDomain | RNoRecords =>
-           (min_cache_ttl <=? obs) && (obs <=? max_cache_ttl)
-           && (obs <=? Z.max min_cache_ttl (list_min (spec_terms cls rrs w0) max_cache_ttl))
+           (spec_floor <=? obs) && (obs <=? spec_ceiling)
+           && (obs <=? Z.max spec_floor (list_min (spec_terms cls rrs w0) spec_ceiling))
        | RServFail => true
-       | _ => obs =? min_cache_ttl
+       | _ => obs =? spec_floor
        end)
   | CClassify _ _ _ _ _ _ _ _ _ => true
   | CAdmit how cls rrs scoped ecs cut w0 w1 t0 t1 obs =>
@@ -399,7 +458,7 @@ Definition spec_case (c : case) : bool :=
       | None => true
       | Some ex =>
           let cands := flat_map (prr_cands now) recs ++ match cut with Some c => [c - now] | None => [] end in
-          (now <? ex) && (ex - now <=? spec_plain cands max_denial_proof_ttl)
+          (now <? ex) && (ex - now <=? spec_plain cands spec_proof_cap)
           && ((mx <=? 0) || (ex - now <=? mx))
       end
   | CProofServe se pcs now ttl eo =>
@@ -411,5 +470,5 @@ Definition spec_case (c : case) : bool :=
       (* a refresh that lost the race leaves the newer entry in place *)
       if (current =? claimed)%N && negb (current =? 0)%N then true
       else negb replaced && (after_id =? current)%N
-  | CTree route pres sc q t0 t1 wit reply mo adm missed => tree_spec pres sc t0 reply adm missed
+  | CTree route pres pcuts sc q t0 t1 wit reply mo adm missed => tree_spec pres pcuts sc t0 reply adm missed
   end.
